@@ -19,3 +19,9 @@ import Eliot.Properties.C09Flat
 #print axioms PM.C09Flat.spec_stream_in_domain
 #print axioms PM.C09Flat.flat_single_message_task
 #print axioms PM.C09Flat.flat_follows_spec
+#print axioms PM.C09Flat.flat_complete_iff_all_arrived
+#print axioms PM.FParser.add_refines
+#print axioms PM.FParser.feed_refines
+#print axioms PM.pdom_of_spec
+#print axioms PM.C09Flat.flat_parse_stream_follows_spec
+#print axioms PM.C09Flat.PInv.get
